@@ -14,7 +14,7 @@ PID = "C15"
 LEAN_MODS = ["SwcVerif.Props.C15"]
 THEOREMS = [
     "C15.convert_faithful", "C15.rows_count", "C15.trailing_ignored", "C15.comment_skipped", "C15.color_skipped", "C15.leading_comment_skipped",
-    "C15.bad_point_rejected", "C15.unbracketed_point_rejected", "C15.node_error_propagates", "C15.truncation_rejected_partial", "C15.lex_skips_blanks", "C15.lex_structural",
+    "C15.bad_point_rejected", "C15.unbracketed_point_rejected", "C15.node_error_propagates", "C15.truncation_rejected_body", "C15.header_truncation_rejected", "C15.truncation_rejected", "C15.lex_skips_blanks", "C15.lex_structural",
 ]
 TRUSTED = ["hand-written lexer/parser model Model/Asc.lean (tied by the c15.convert correspondence on generated, truncated and corrupted documents); "
            "the AST is not materialised in the model: rows are created in `_parse_node` order (= the pre-order `walk_ast` assigns), covered by the correspondence"]
